@@ -177,7 +177,7 @@ Definition c14q (n : Z) (d : positive) : Qc := spq_of n d.
 Definition c14_kn : list Qc := [c14q 1 1; c14q 1 1; c14q 1 1; c14q 2 1; c14q 3 1; c14q 3 1; c14q 3 1].
 Definition c14_pts : list (list Qc) := [[c14q 5 4; c14q 7 4]; [c14q 9 4; c14q 11 4]].
 Definition c14_wts : list Qc := [c14q 1 1; c14q 1 1].
-Definition c14_mf : Qc := c14q 1 4.
+Definition c14_mf : list Qc := [c14q 1 4; c14q 1 4].
 Definition c14_cst (v : Qc) : list (list Qc) := [[v; v]; [v; v]].
 Definition c14_ones : list Qc := [c14q 1 1; c14q 1 1; c14q 1 1; c14q 1 1].
 Definition c14_asm (E : Qc) := gkq_assemble c14_kn 2 2 2 c14_pts c14_wts c14_mf
